@@ -25,6 +25,19 @@ pub fn enumerate(prop: &str, tier: &str, f: &mut dyn FnMut(Case)) {
             gen::builtins(lv, f);
             gen::core(lv, f);
         }
+        "C12" => crate::gen3::arith(lv, f),
+        "C14" => crate::gen3::cmp(lv, f),
+        "C16" => crate::gen3::append(lv, f),
+        "C17" => {
+            crate::gen3::count(lv, f);
+            crate::gen3::filter(lv, f);
+            crate::gen3::functor(lv, f);
+            crate::gen3::join(lv, f);
+        }
+        "C15" => {
+            crate::gen3::append(lv, f);
+            crate::gen3::filter(lv, f);
+        }
         "C02" => gen::cut(lv, f),
         "C03" => gen::not(lv, f),
         "C04" => gen::output(lv, f),
@@ -78,6 +91,30 @@ fn goal_kinds(p: &Program) -> String {
     }
     s.sort();
     s.join("")
+}
+
+/// The property whose statement governs a family's answers.
+pub fn prop_of_family(family: &str) -> &'static str {
+    match family.split('@').next().unwrap_or("") {
+        "cut" => "C02",
+        "not" => "C03",
+        "output" => "C04",
+        "arith" => "C12",
+        "cmp" => "C14",
+        "append" => "C16",
+        "count" | "filter" | "functor" | "join" => "C17",
+        _ => "C01",
+    }
+}
+
+fn build(family: &str, prog: &Program) -> Result<suiron::KnowledgeBase, String> {
+    if family.ends_with("@infix") {
+        build_kb_text(prog, true)
+    } else if family.ends_with("@text") {
+        build_kb_text(prog, false)
+    } else {
+        Ok(build_kb(prog))
+    }
 }
 
 pub struct Verdicts {
@@ -214,6 +251,20 @@ pub fn worker(prop: &str, tier: &str) {
     let mut emitted: HashMap<(String, String), u32> = HashMap::new();
     let mut n_samples = 0;
     let probe = prop == "C10";
+    if prop == "C15" {
+        // the direct part: constructor, parser, renaming on every element sequence
+        let max_len = if tier == "thorough" { 6 } else { 5 };
+        let mut first = true;
+        crate::e3::direct(&mut w, &mut idx, max_len, &mut |w: &mut Worker, kind: &str, msg: String, text: String, t: T| {
+            w.count("viol.C15", 1);
+            let wit = if first { json!({"engine":"e3","elements": t.to_json(), "text": text}) } else { json!({"engine":"e3","elements": t.to_json(), "text": text}) };
+            first = false;
+            w.emit(json!({"t":"viol","prop":"C15","class":format!("{}:list-direct", kind),"kind":kind,"msg":msg,"witness":wit}));
+        });
+        if w.describe.is_some() && w.describe.unwrap() < idx {
+            return;
+        }
+    }
     let mut body = |case: Case, w: &mut Worker| {
         let my = idx;
         idx += 1;
@@ -226,7 +277,13 @@ pub fn worker(prop: &str, tier: &str) {
         }
         w.begin(my);
         w.count("programs", 1);
-        let kb = build_kb(&case.prog);
+        let kb = match build(case.family, &case.prog) {
+            Ok(kb) => kb,
+            Err(_) => {
+                w.count("skipped.parser-rejected-the-text", 1);
+                return;
+            }
+        };
         for q in &case.queries {
             let qn = number_query(q);
             // cut family: the set of behaviours C02 accepts (see Ref::choose)
@@ -286,12 +343,8 @@ pub fn worker(prop: &str, tier: &str) {
             }
             w.distinct("outcomes", &(case.family, n_answers, rf.steps.iter().map(|s| s.1.len()).collect::<Vec<_>>(), rf.stats.cut_executed.min(3), rf.stats.not_failed.min(2)));
 
-            let main_prop = match case.family {
-                "cut" => "C02",
-                "not" => "C03",
-                "output" => "C04",
-                _ => "C01",
-            };
+            // C15 ("holds exactly those elements") owns the lists built by append / filters in its own run
+            let main_prop = if prop == "C15" { "C15" } else { prop_of_family(case.family) };
             // a family run on behalf of a rider property (C05/C10/C11) still
             // charges answer mismatches to the family's own property
             let mut viols = judge(main_prop, case.family, &case.prog, q, &rf, &im).viols;
@@ -367,7 +420,7 @@ pub fn worker(prop: &str, tier: &str) {
                     w.emit(json!({"t":"viol","prop":p,"class":class,"kind":"","msg":"(further occurrence)","witness":null}));
                 }
             }
-            if n_samples < 3 && w.shard == 1 && my % 1013 == 1 {
+            if n_samples < 2 && (my % 1013 == 1 || w.shard < 2) {
                 n_samples += 1;
                 let steps: Vec<String> = im.steps.iter().map(|s| format!("{} {:?}", ans_text(&s.ans), s.out)).collect();
                 w.emit(json!({"t":"sample","v":{"program":program_text(&case.prog),"query":q.text(),"engine_steps":steps}}));
@@ -395,7 +448,13 @@ pub fn replay(wit: &Value) -> bool {
         println!("reference call {}: {}  output {:?}", i + 1, ans_text(&s.0), s.1);
     }
     let mut w = Worker::from_env();
-    let kb = build_kb(&prog);
+    let kb = match build(&family, &prog) {
+        Ok(kb) => kb,
+        Err(e) => {
+            eprintln!("the parser rejected the program text: {}", e);
+            return true;
+        }
+    };
     let opts = RunOpts { reasks: REASKS, max_steps: MAX_ANSWERS + REASKS + 3, probe_fresh: true, reset_globals: true };
     let mut runs = vec![];
     for round in 0..2 {
@@ -415,12 +474,7 @@ pub fn replay(wit: &Value) -> bool {
     if rf.skipped.is_some() {
         return true;
     }
-    let main_prop = match family.as_str() {
-        "cut" => "C02",
-        "not" => "C03",
-        "output" => "C04",
-        _ => "C01",
-    };
+    let main_prop = prop_of_family(&family);
     let mut vs = judge(main_prop, &family, &prog, &q, &rf, &runs[0]).viols;
     if !vs.is_empty() && family == "cut" {
         if let Some(vars) = refsolve::run_variants(&prog, &number_query(&q), BUDGET, MAX_ANSWERS, MAX_VARIANT_RUNS) {
